@@ -119,7 +119,7 @@ pub struct World {
 }
 
 const DIRS: [&str; 15] = ["m", "data", "Subdir", "a", "x.y", "zz", "scripts", "tex\\hi", "ver1.0", "data.lz", "@E", "e_m", "sub..dir", "rom:", "Thumbs.db"];
-const FILES: [&str; 32] = ["v1..2.bin", "Data..bin.lz", "Thumbs.db", "desktop.ini", "..hidden", "GameData.bin.lz", "one.bin", "two.txt", "mess.cmp", "f.cms", "plain", "three.txt", "arc.arc", "pack.bin", "t.bin.lz", "GameData.bin", "n-1_@.dat", "tex.ctpk", "model.bch", "ui.bcres", "img.tpl", "odd\\name.bin", "UPPER.LZ", "Mixed.Cmp", "map.v2.cmp", "SAVE.CMS", "@E", "e_one.bin", "lz", "x.cmp.bak", "@U.lz", "cmp"];
+const FILES: [&str; 38] = ["opening.bcstm", "se.bcwav", "movie.moflex", ".wh.one.bin", "\u{1F600}.bin", "\u{FF21}.bin", "v1..2.bin", "Data..bin.lz", "Thumbs.db", "desktop.ini", "..hidden", "GameData.bin.lz", "one.bin", "two.txt", "mess.cmp", "f.cms", "plain", "three.txt", "arc.arc", "pack.bin", "t.bin.lz", "GameData.bin", "n-1_@.dat", "tex.ctpk", "model.bch", "ui.bcres", "img.tpl", "odd\\name.bin", "UPPER.LZ", "Mixed.Cmp", "map.v2.cmp", "SAVE.CMS", "@E", "e_one.bin", "lz", "x.cmp.bak", "@U.lz", "cmp"];
 
 pub fn gen_dir(rng: &mut Rng) -> String {
     let d = rng.range(0, 3);
